@@ -168,6 +168,11 @@ def run_case(p, cj):
     if not symmetric(L, N):
         p.nontrivial((api, N, tuple(L), conn))
     prep = QuantumCircuit(N)
+    if seed % 3 == 0 and N >= 2:
+        from qiskit import QuantumRegister
+        regs = ws.random_registers(N, rnd)
+        prep = QuantumCircuit(*[QuantumRegister(k, "r%d" % i) for i, k in enumerate(regs)])
+        p.counters["preparation circuits on several quantum registers"] += 1
     if seed % 2:
         prep.metadata = {"owner": "caller", "register": N}     # legal: the caller's circuit carries its own metadata
     allowed = None
